@@ -57,6 +57,9 @@ pub struct E3Scn {
     /// `--wrap-process=group|session|none`, or "legacy-none" = `--no-process-group`; None = the default (group)
     #[serde(default)]
     pub wrap: Option<String>,
+    /// spawn attempts (0-based, counted over the run) that fail, e.g. the program is missing or not executable
+    #[serde(default)]
+    pub spawn_fail: Vec<u32>,
 }
 
 impl E3Scn {
@@ -182,6 +185,7 @@ async fn e3_root(scn: E3Scn, args: Args) {
     with_run(|r| {
         r.world.ensure_job(0);
         r.world.specs[0] = if scn.children.is_empty() { vec![ChildSpec::default()] } else { scn.children.clone() };
+        r.world.spawn_fail[0] = scn.spawn_fail.clone();
     });
     let state = match watchexec_cli::verif::new_state(&args).await {
         Ok(s) => s,
